@@ -276,10 +276,13 @@ class DirichletOperator(MCMCOperator):
 
     @MCMCOperator.adaptable_parameter.getter
     def adaptable_parameter(self) -> float:
-        return math.log(self._scaler)
+        # scaler is the concentration multiplier of the proposal: a larger
+        # scaler gives more timid proposals, so the adaptable parameter
+        # (raised when the acceptance is above target) is its negative log
+        return -math.log(self._scaler)
 
     def set_adaptable_parameter(self, value: float) -> None:
-        self._scaler = math.exp(value)
+        self._scaler = math.exp(-value)
 
     def _step(self) -> Tensor:
         old_values = self.parameters[0].tensor
